@@ -135,7 +135,7 @@ class LFDA(MahalanobisMixin, TransformerMixin):
       tSb += G / n + (1 - nc / n) * Xc.T.dot(Xc) + _sum_outer(Xc) / n
       tSw += G / nc
 
-    tSb -= _sum_outer(X) / n - tSw
+    tSb -= _sum_outer(X) / n + tSw
 
     # symmetrize
     tSb = (tSb + tSb.T) / 2
